@@ -150,6 +150,7 @@ func (self *VM) GetGlobals() map[string]value.Value {
 }
 
 func (self *VM) spawnCore() *Core {
+	verifYield("spawn")
 	self.Cores.Lock.Lock()
 	defer self.Cores.Lock.Unlock()
 
@@ -464,6 +465,7 @@ func (self *VM) Wait() (coreNum uint, i *value.VmInterrupt) {
 					}
 
 					self.Cores.Lock.RUnlock()
+					verifYield("wait-gap")
 
 					self.Cores.Lock.Lock()
 					self.Cores.Cores = newCores
@@ -472,6 +474,7 @@ func (self *VM) Wait() (coreNum uint, i *value.VmInterrupt) {
 					self.Cores.Lock.RLock()
 				} else {
 					self.Cores.Lock.RUnlock()
+					verifYield("wait-gap-err")
 
 					// TODO: is this OK?
 					self.Cores.Lock.Lock()
